@@ -378,7 +378,7 @@ func ruleNoChanBlockUnderCloseLocks(r *Run, le *LockEngine, id string) {
 		case *ssa.Send:
 			return true, "send"
 		case *ssa.Select:
-			if x.Blocking {
+			if x.Blocking && !timerBounded(x) { // (a select with a one-shot timer case waits for a bounded time)
 				return true, "select without default"
 			}
 		case *ssa.UnOp:
